@@ -1088,13 +1088,13 @@ theorem fixInPlace_congr {d1 d2 : Doc} (h : d1.shape = d2.shape) (files : Files)
 
 /-! ### the whole call -/
 
-theorem fixExternal_true (doc : Doc) (files : Files) (n : Nat) : fixExternal doc true files n = fixInPlace doc files n := by
-  simp [fixExternal]
+theorem fixExternalCells_true (doc : Doc) (files : Files) (n : Nat) : fixExternalCells doc true files n = fixInPlace doc files n := by
+  simp [fixExternalCells]
 
-theorem fixExternal_false (doc : Doc) (files : Files) (n : Nat) :
-    fixExternal doc false files n =
+theorem fixExternalCells_false (doc : Doc) (files : Files) (n : Nat) :
+    fixExternalCells doc false files n =
       { fixInPlace (deepcopyDoc doc n).1 files (deepcopyDoc doc n).2 with input := doc } := by
-  simp [fixExternal]
+  simp [fixExternalCells]
 
 /-- allocation accounting for the in-place run: the document afterwards consists of the objects it had plus
     every identity of one counter interval `[lo, next)`, each exactly once; that interval starts after
